@@ -43,9 +43,9 @@ from rtamt.exception.exception import RTAMTException
 
 
 def literal_text(ctx):
-    # IntegerLiteral also admits hexadecimal (0x1F) and binary (0b101) numerals,
-    # which float() and Decimal() do not read
-    text = ctx.getText()
+    # IntegerLiteral also admits hexadecimal (0x1F) and binary (0b101) numerals and runs of
+    # underscores between digits (1__000), which float() and Decimal() do not read
+    text = ctx.getText().replace('_', '')
     if text[:2] in ('0x', '0X', '0b', '0B'):
         return str(int(text, 0))
     return text
